@@ -464,6 +464,79 @@ class AbortTracer(object):
         return False
 
 
+class _CountTracer(AbortTracer):
+    """Counts the line events inside labella: all of them and those in scope."""
+
+    def __init__(self, scope):
+        AbortTracer.__init__(self, -1, scope)
+        self.n_any = 0
+
+    def _local(self, frame, event, arg):
+        if event == "line":
+            self.n_any += 1
+        return AbortTracer._local(self, frame, event, arg)
+
+
+def dry_count(fn, scope):
+    """How many line events inside labella (in scope, in all) does fn() execute?
+
+    The dry run happens in a fork()ed copy of this process, so it needs nothing
+    from the objects involved (no deepcopy) and leaves no trace in this process.
+    Returns (n_scope, n_any)."""
+    from .util import HarnessError
+    import select
+
+    r, w = os.pipe()
+    sys.stdout.flush()
+    sys.stderr.flush()
+    pid = os.fork()
+    if pid == 0:
+        code = 0
+        try:
+            os.close(r)
+            signal.signal(signal.SIGALRM, signal.SIG_DFL)
+            signal.alarm(60)  # a dry run that hangs dies on its own
+            tr = _CountTracer(scope)
+            try:
+                with tr:
+                    fn()
+            except BaseException:
+                sys.settrace(None)
+            os.write(w, ("%d %d" % (tr.n, tr.n_any)).encode())
+            os.close(w)
+        except BaseException:
+            code = 4
+        finally:
+            os._exit(code)
+    os.close(w)
+    data = b""
+    try:
+        deadline = time.monotonic() + 70
+        while True:
+            left = deadline - time.monotonic()
+            if left <= 0:
+                break
+            rl, _, _ = select.select([r], [], [], left)
+            if not rl:
+                break
+            b = os.read(r, 4096)
+            if not b:
+                break
+            data += b
+    finally:
+        os.close(r)
+        try:
+            os.kill(pid, signal.SIGKILL)
+        except ProcessLookupError:
+            pass
+        os.waitpid(pid, 0)
+    try:
+        a, b = data.decode().split()
+        return int(a), int(b)
+    except Exception:
+        raise HarnessError("dry run for an abort point gave no count (%r)" % (data,))
+
+
 def frame_depth():
     d = 0
     f = sys._getframe()
